@@ -44,6 +44,10 @@ struct String {
 
     /// Assigns \a other to this string and returns a reference to this string.
     String &operator=(const String &other) {
+        if (this == &other) {
+            // Dropping first would free the buffer we are about to clone from.
+            return *this;
+        }
         cbindgen_private::resolvo_string_drop(this);
         cbindgen_private::resolvo_string_clone(this, &other);
         return *this;
